@@ -454,11 +454,12 @@ def _run(ctx, oracle_only=False, big=None):
 def correspondence(ctx):
     from props import c07_wire
 
-    from props import c07_clock
+    from props import c07_clock, c07_faults
 
     r = _run(ctx)
     r.merge(c07_wire.run(ctx))
     r.merge(c07_clock.run(ctx))
+    r.merge(c07_faults.run(ctx))
     return r
 
 
@@ -466,11 +467,12 @@ def search(ctx, prior):
     # oracle only: first at the tier's own size, then (nothing found) on the large stream with a third zone
     from props import c07_wire
 
-    from props import c07_clock
+    from props import c07_clock, c07_faults
 
     r = _run(ctx, oracle_only=True)
     r.merge(c07_wire.run(ctx))
     r.merge(c07_clock.run(ctx))
+    r.merge(c07_faults.run(ctx))
     known = set()
     try:
         from framework import load_known
@@ -523,6 +525,10 @@ def _judge(i):
 
 
 def replay(ctx, doc):
+    if doc["failure"]["input"].get("kind") == "listing-fault" or "late_plan" in doc["failure"]["input"]:
+        from props import c07_faults
+
+        return c07_faults.replay(doc["failure"]["input"])
     if doc["failure"]["input"].get("kind") == "wall-clock-sequence":
         from props import c07_clock
 
